@@ -48,8 +48,8 @@ class Msg:
 
 
 class StubReader:
-    def __init__(self, r, eng, calls, maxmsgs):
-        self.r, self.calls = r, 0
+    def __init__(self, r, eng, calls, maxmsgs, clock):
+        self.r, self.calls, self.clock = r, 0, clock
         self.plan = []
         for c in range(calls):
             n = z3.Int(f"n_{r}_{c}")
@@ -58,11 +58,15 @@ class StubReader:
         self.returned = [[] for _ in range(calls)]
 
     def read(self, data):
-        n, msgs = self.plan[self.calls]
+        c = self.clock[0]                 # plan[c] = what this reader makes of the c-th chunk; a candidate that is not fed a chunk loses it
+        n, msgs = self.plan[c]
         out = msgs[:concretize(n)]
-        self.returned[self.calls] = out
+        self.returned[c] = out
         self.calls += 1
         return out
+
+    def full_plan(self):
+        return [msgs[:concretize(n)] for n, msgs in self.plan]
 
 
 def lemma_path(proto, readers, calls, maxmsgs):
@@ -72,10 +76,12 @@ def lemma_path(proto, readers, calls, maxmsgs):
         loop = asyncio.new_event_loop()
         asyncio.set_event_loop(loop)
         try:
-            rs = [StubReader(i, eng, calls, maxmsgs) for i in range(readers)]
+            clock = [0]
+            rs = [StubReader(i, eng, calls, maxmsgs, clock) for i in range(readers)]
             q = asyncio.Queue()
             p = (MC.SmartMeterMessagePayloadProtocol if proto == "payload" else MC.SmartMeterMessageProtocol)(q, rs)
             for c in range(calls):
+                clock[0] = c
                 p.data_received(b"chunk")
             got = []
             while not q.empty():
@@ -84,8 +90,10 @@ def lemma_path(proto, readers, calls, maxmsgs):
         finally:
             asyncio.set_event_loop(None)
             loop.close()
-        # the plan as seen on this path: messages never returned (reader not fed, or beyond n) are irrelevant -> reported as not returned
-        plan = [[[[m._valid, m._kind] for m in r.returned[c]] for c in range(calls)] for r in rs]
+        # the whole plan, also for chunks a reader was not given: while nobody is selected every candidate must see every chunk (a
+        # candidate that is skipped can never become the selected reader, and the clean-stream corollary fails for that candidate order)
+        full = [r.full_plan() for r in rs]
+        plan = [[[[m._valid, m._kind] for m in full[i][c]] for c in range(calls)] for i in range(len(rs))]
         w = {"sub": "stub", "proto": proto, "plan": plan}
         ctx.witness, ctx.obs = w, got
         ctx.nontrivial()
@@ -93,12 +101,12 @@ def lemma_path(proto, readers, calls, maxmsgs):
         selected, expect = None, []
         for c in range(calls):
             if selected is None:
-                for r in rs:
-                    if any(bool(m._valid) for m in r.returned[c]):
-                        selected = r
+                for ri, r in enumerate(rs):
+                    if any(bool(m._valid) for m in full[ri][c]):
+                        selected = ri
                         break
             if selected is not None:
-                for i, m in enumerate(selected.returned[c]):
+                for i, m in enumerate(full[selected][c]):
                     if proto == "payload":
                         if bool(m._valid) and concretize(m._kind) == 2:
                             expect.append(list(m.key))
@@ -127,7 +135,8 @@ def real_path(proto, readers, kind):
             payloads = [SBytes([0xE6, x, 0x00]), None, SBytes([0x0F, 0x40])]
         else:
             d = PC.free_digit("d")
-            r1 = PC.build_readout(PC.IDENT, [list(b"1-0:1.8.0(0012") + [d] + list(b"*kWh)")], checksum=False)
+            c1, c2 = PC.free_printable("c1", exclude=(0x21, 0x28, 0x29, 0x2F)), PC.free_printable("c2", exclude=(0x21, 0x28, 0x29, 0x2F))     # may be '~' = 0x7E, the HDLC flag
+            r1 = PC.build_readout(PC.IDENT, [list(b"1-0:1.8.0(0012") + [d] + list(b"*kWh)"), list(b"0-0:96.13.0(") + [c1] + list(b"23456789") + [c2] + [0x29]], checksum=False)
             r2 = ref_p1.build_readout(b"/ADN9 6534", [b"1-0:1.7.0(00.332*kW)"])
             r3 = ref_p1.build_readout(b"/LGF5E360", [b"1-0:2.7.0(00.000*kW)"], checksum=False)
             stream = SBytes(r1 + r2 + r3)
@@ -140,10 +149,11 @@ def real_path(proto, readers, kind):
             bounds_ = [fl[1] + 1, fl[2] + 1] if len(fl) > 3 else [n // 2]
         expect = [p for p in payloads if p is not None] if proto == "payload" else payloads
         # one call, cuts inside messages, cuts exactly between messages (the reader is empty when the next chunk arrives), a chunk of line ends only
-        for cuts in [(), (n // 3,), (n // 2,), (n - 4,), (5, n // 2), (bounds_[0],), tuple(bounds_), (bounds_[0] - 2, bounds_[0])]:
+        cutsets_ = [(), (n // 3,), (n // 2,), (n - 4,), (5, n // 2), (bounds_[0],), tuple(bounds_), (bounds_[0] - 2, bounds_[0])]
+        for cuts in cutsets_:
             chunks = HC.split(stream, cuts)
             w = {"sub": "real", "proto": proto, "readers": list(readers), "chunks": chunks, "expect": expect}
-            ctx.intend(w)
+            ctx.intend(w, alts=lambda: ({"sub": "real", "proto": proto, "readers": list(readers), "chunks": HC.split(stream, c), "expect": expect} for c in cutsets_))
             loop = asyncio.new_event_loop()
             asyncio.set_event_loop(loop)
             try:
